@@ -1483,7 +1483,7 @@ func TestVerifC03(t *testing.T) {
 	c03Corpus(t, out)
 	ncases, nconc := 2600, 30
 	if verifh.Tier() == "thorough" {
-		ncases, nconc = 120000, 600
+		ncases, nconc = 60000, 300
 	}
 	for i := 0; i < ncases; i++ {
 		cr := rd.Fork()
